@@ -577,6 +577,12 @@ pub fn canonical_key(data: &[u8]) -> Option<PoolKey> {
     if k.left() == k.right() {
         return None;
     }
+    // `NewCustom` is a placeholder ("this transaction's own new token"), not a denomination: the empty string - its
+    // byte form - names no pool. A pool with such a side would be credited with coins of as many different
+    // denominations as there are requesters, against C15's "each side ... its own denomination".
+    if k.left() == Denom::NewCustom || k.right() == Denom::NewCustom {
+        return None;
+    }
     let c = PoolKey::new(k.left(), k.right());
     if c == k {
         Some(k)
